@@ -36,12 +36,19 @@ def run(rep):
               tag='c03gen', timeout=600)
     rep.add_tlc(r)
     cases = [json.loads(l) for l in open(r.out_path)]
+    ngen = len(cases)
+    # systematic one-rule arguments (three letters, up to three premises): harness-generated inputs, TLC still decides
+    import corpus
+    for k, (name, a) in enumerate(sorted(corpus.systematic(prop_only=True).items())):
+        cases.append({'id': 100000 + k, 'arg': a, 'systematic': name})
     thorough = rep.tier == 'thorough'
     jobs = []
     for c in cases:
         haspre = bool(c['arg']['prems'])
         for li, L in enumerate(P.ALL_LOGICS):
-            if not thorough and L not in P.NONMODAL and (haspre or L not in QUICK_MODAL):
+            if not thorough and L not in P.NONMODAL and (haspre or L not in QUICK_MODAL) and c['id'] < 100000:
+                continue
+            if not thorough and c['id'] >= 100000 and L not in P.NONMODAL and L not in QUICK_MODAL:
                 continue
             if thorough:
                 combos = OPTS
@@ -92,5 +99,7 @@ def run(rep):
                        'non-trivial = conclusion is compound')
     rep.cov['exhaustive'] = True
     rep.cov['arguments'] = len(cases)
+    rep.cov['generated_arguments'] = ngen
     rep.sample(recs[40]['argstr'])
     rep.sample({'argstr': recs[900]['argstr'], 'runs': recs[900]['runs'][:3]})
+    rep.cov['exhaustive'] = True
